@@ -744,6 +744,34 @@ Proof.
 Qed.
 
 (** ** C02 *)
+(** an acknowledged sync / unmap (call kind [k]): a strict majority of the replicas in service did not
+    fail it, every failing one is gone *)
+Lemma c02_sync_case : forall s fs k, struct_ok s -> snd (do_sync s fs k) = ROk ->
+  (length (in_service (replicas s)) < 2 * length (filter (fun a => negb (flt fs a k)) (in_service (replicas s))))%nat
+  /\ forall a, In a (in_service (replicas s)) -> flt fs a k = true -> ~ In a (keys (replicas (fst (do_sync s fs k)))).
+Proof.
+  intros s fs k H Hok.
+  destruct (ro s) eqn:Hro.
+  { destruct (do_sync_not_reached s fs k (or_introl Hro)) as [_ X]. contradiction. }
+  destruct (avail s) eqn:Hav.
+  2:{ destruct (do_sync_not_reached s fs k (or_intror Hav)) as [_ X]. contradiction. }
+  rewrite (do_sync_unfold s fs k Hro Hav) in *. cbn [fst snd] in *.
+  rewrite <- (writers_in_service s H).
+  set (ws := writers s) in *.
+  assert (Ee : io_errs ws fs k k = filter (fun a => flt fs a k) ws).
+  { unfold io_errs. apply filter_ext. intros a. apply orb_diag. }
+  rewrite Ee in *.
+  pose proof (filter_split_length (fun a => flt fs a k) ws) as Hsp.
+  pose proof (writers_nonempty_of_avail s H Hav) as Hne. fold ws in Hne.
+  split.
+  - unfold io_res in Hok.
+    destruct (filter (fun a => flt fs a k) ws) as [|e0 es0] eqn:Ef.
+    + cbn [length] in Hsp. rewrite <- Hsp. clear - Hne Hsp. lia.
+    + destruct (majority_ok (length ws) (length (e0 :: es0))) eqn:Em; [|cbn in Hok; discriminate].
+      apply majority_strict in Em. clear - Em Hsp. lia.
+  - intros a Ha F. apply detach_gone; [exact H|]. apply filter_In. split; assumption.
+Qed.
+
 Lemma c02_step_model : forall rf0 n s e r0 ef0 r0',
   status_ok s -> struct_ok s -> keys_lt n s ->
   c02_step rf0 (with_res1 (observe n s r0 ef0) r0') e
@@ -810,31 +838,24 @@ Proof.
       apply Hhold; [exact Haw|apply Hnoerr; assumption].
   - (* sync *)
     cbn [step]. unfold c02_step. cbn [o_replicas observe with_res1].
-    destruct (do_sync s fs KSync) as [s' r] eqn:Ew. cbn [fst snd].
+    pose proof (c02_sync_case s fs KSync H) as G.
+    destruct (do_sync s fs KSync) as [s' r]. cbn [fst snd] in *.
     unfold is_ack. cbn [o_res observe].
     destruct (res_eqb (res_class r) ROk) eqn:Eack; [|reflexivity].
-    apply res_class_ok in Eack. subst r.
-    destruct (ro s) eqn:Hro.
-    { destruct (do_sync_not_reached s fs KSync (or_introl Hro)) as [_ X]. rewrite Ew in X. contradiction. }
-    destruct (avail s) eqn:Hav.
-    2:{ destruct (do_sync_not_reached s fs KSync (or_intror Hav)) as [_ X]. rewrite Ew in X. contradiction. }
-    pose proof (do_sync_unfold s fs KSync Hro Hav) as Hu. rewrite Ew in Hu. pose proof (f_equal fst Hu) as Hs'. pose proof (f_equal snd Hu) as Hres. cbn [fst snd] in Hs', Hres. clear Hu.
-    rewrite <- (writers_in_service s H).
-    set (ws := writers s) in *.
-    assert (Ee : io_errs ws fs KSync KSync = filter (fun a => flt fs a KSync) ws).
-    { unfold io_errs. apply filter_ext. intros a. apply orb_diag. }
-    rewrite Ee in *.
-    pose proof (filter_split_length (fun a => flt fs a KSync) ws) as Hsp.
-    pose proof (writers_nonempty_of_avail s H Hav) as Hne. fold ws in Hne.
-    apply andb_true_intro. split.
-    + apply Nat.ltb_lt. unfold io_res in Hres.
-      destruct (filter (fun a => flt fs a KSync) ws) as [|e0 es0] eqn:Ef.
-      * cbn [length] in Hsp. rewrite <- Hsp. clear - Hne Hsp. lia.
-      * destruct (majority_ok (length ws) (length (e0 :: es0))) eqn:Em; [|cbn in Hres; discriminate].
-        apply majority_strict in Em. clear - Em Hsp. lia.
-    + apply forallb_forall. intros a Ha. destruct (flt fs a KSync) eqn:F; [|reflexivity].
-      apply negb_true_iff. apply mem_false. rewrite Hs'. apply detach_gone; [exact H|].
-      apply filter_In. split; assumption.
+    apply res_class_ok in Eack. subst r. destruct (G eq_refl) as [G1 G2].
+    apply andb_true_intro. split; [apply Nat.ltb_lt; exact G1|].
+    apply forallb_forall. intros a Ha. destruct (flt fs a KSync) eqn:F; [|reflexivity].
+    apply negb_true_iff. apply mem_false. apply G2; assumption.
+  - (* unmap *)
+    cbn [step]. unfold c02_step. cbn [o_replicas observe with_res1].
+    pose proof (c02_sync_case s fs KUnmap H) as G.
+    destruct (do_sync s fs KUnmap) as [s' r]. cbn [fst snd] in *.
+    unfold is_ack. cbn [o_res observe].
+    destruct (res_eqb (res_class r) ROk) eqn:Eack; [|reflexivity].
+    apply res_class_ok in Eack. subst r. destruct (G eq_refl) as [G1 G2].
+    apply andb_true_intro. split; [apply Nat.ltb_lt; exact G1|].
+    apply forallb_forall. intros a Ha. destruct (flt fs a KUnmap) eqn:F; [|reflexivity].
+    apply negb_true_iff. apply mem_false. apply G2; assumption.
 Qed.
 
 Theorem c02_oracle_model : forall es rf0 n w0, (1 <= rf0)%nat -> forallb ev_wf es = true ->
@@ -914,20 +935,15 @@ Proof.
     pose proof (Sync_case fs KUnmap eq_refl eq_refl) as G. destruct (do_sync s fs KUnmap). exact G.
 Qed.
 
-(** clause 2: a failing minority does not surface *)
-Lemma c05_acked : forall rf0 s wid off len fs, status_ok s -> struct_ok s -> rf s = rf0 ->
+(** clause 2: a failing minority does not surface (write, sync, unmap) *)
+Lemma c05_acked : forall rf0 s wid off len fs x, status_ok s -> struct_ok s -> rf s = rf0 ->
   let att := in_service (replicas s) in
   let good := filter (fun a => negb (flt fs a KWrite || flt fs a KWriteAp)) att in
-  quorum_ok rf0 (replicas s) && (0 <=? off) && (off + len <=? csize s)
-    && Nat.ltb (length att) (2 * length good)
-    && existsb (fun a => mem a (rw_of (replicas s))) good = true ->
+  quorum_ok rf0 (replicas s) = true -> 0 <= off -> off + len <= csize s ->
+  (length att < 2 * length good)%nat -> In x good -> In x (rw_of (replicas s)) ->
   snd (do_write s wid off len fs) = ROk.
 Proof.
-  intros rf0 s wid off len fs Hst H Hrf att good G.
-  apply andb_prop in G. destruct G as [G G5]. apply andb_prop in G. destruct G as [G G4].
-  apply andb_prop in G. destruct G as [G G3]. apply andb_prop in G. destruct G as [G1 G2].
-  apply Z.leb_le in G2. apply Z.leb_le in G3. apply Nat.ltb_lt in G4.
-  apply existsb_exists in G5. destruct G5 as [x [Hxg Hxr]]. apply mem_in in Hxr.
+  intros rf0 s wid off len fs x Hst H Hrf att good G1 G2 G3 G4 Hxg Hxr.
   subst good att. rewrite <- (writers_in_service s H) in *.
   apply filter_In in Hxg. destruct Hxg as [Hxw Hxf]. apply negb_true_iff in Hxf.
   pose proof (filter_split_length (fun a => flt fs a KWrite || flt fs a KWriteAp) (writers s)) as Hsp.
@@ -936,6 +952,47 @@ Proof.
     clear - G4 Hsp. lia.
   - apply rw_aget; assumption.
   - unfold io_errs. intro Hi. apply filter_In in Hi. destruct Hi as [_ Hi]. congruence.
+Qed.
+
+Lemma c05_acked_sync : forall rf0 s fs k x, status_ok s -> struct_ok s -> rf s = rf0 ->
+  let att := in_service (replicas s) in
+  let good := filter (fun a => negb (flt fs a k)) att in
+  quorum_ok rf0 (replicas s) = true ->
+  (length att < 2 * length good)%nat -> In x good -> In x (rw_of (replicas s)) ->
+  snd (do_sync s fs k) = ROk.
+Proof.
+  intros rf0 s fs k x Hst H Hrf att good G1 G4 Hxg Hxr.
+  subst good att. rewrite <- (writers_in_service s H) in *.
+  apply filter_In in Hxg. destruct Hxg as [Hxw Hxf]. apply negb_true_iff in Hxf.
+  rewrite (do_sync_unfold s fs k (gate_open s rf0 Hst Hrf G1) (rw_avail s x H Hxr)). cbn [snd].
+  set (ws := writers s) in *.
+  assert (Ee : io_errs ws fs k k = filter (fun a => flt fs a k) ws).
+  { unfold io_errs. apply filter_ext. intros a. apply orb_diag. }
+  rewrite Ee.
+  pose proof (filter_split_length (fun a => flt fs a k) ws) as Hsp.
+  assert (Hnx : ~ In x (filter (fun a => flt fs a k) ws)).
+  { intro Hi. apply filter_In in Hi. destruct Hi as [_ Hi]. congruence. }
+  unfold io_res. destruct (filter (fun a => flt fs a k) ws) as [|e0 es0] eqn:Ef; [reflexivity|].
+  rewrite (suppressed_by_rw s (e0 :: es0) x (rw_aget s x H Hxr) Hnx) by discriminate.
+  rewrite strict_majority; [reflexivity|rewrite <- Ef; apply filter_length_le|].
+  clear - G4 Hsp. lia.
+Qed.
+
+(** clause 5: a delivered monitor notification, a monitor failure, an explicit remove detach the replica *)
+Lemma c05_reported_gone : forall s e, struct_ok s ->
+  match e with
+  | MonFire a _ | MonFail a _ | Remove a _ =>
+      snd (fst (step s e)) = ROk -> ~ In a (keys (replicas (fst (fst (step s e)))))
+  | _ => True
+  end.
+Proof.
+  intros s e H. destruct e; try exact I; cbn [step].
+  - cbn [fst snd]. intros _. apply remove_replica_gone. exact H.
+  - unfold do_mon_fire. destruct (first_for (pend_mon s) (Nat.eqb a)) as [[i y]|]; cbn [fst snd]; [|discriminate].
+    intros _. apply remove_replica_gone. eapply sst_struct; [apply sst_upd_mon|exact H].
+  - unfold do_mon_fail. destruct (first_for (rev (live_mon s)) (Nat.eqb a)) as [[i y]|]; cbn [fst snd]; [|discriminate].
+    intros _. apply remove_replica_gone. apply struct_set_mode; [discriminate|].
+    eapply sst_struct; [apply sst_upd_mon|exact H].
 Qed.
 
 (** clause 3: a new entry of the replica list is the added replica, as WO (or the list was empty at a start) *)
@@ -1039,19 +1096,34 @@ Lemma c05_step_model : forall rf0 n s e r0 ef0 r0',
 Proof.
   intros rf0 n s e r0 ef0 r0' Hst H Hrf. unfold c05_step.
   cbn [o_replicas o_size observe with_res1].
-  apply andb_true_intro. split; [apply andb_true_intro; split; [apply andb_true_intro; split|]|].
+  apply andb_true_intro. split; [apply andb_true_intro; split; [apply andb_true_intro; split; [apply andb_true_intro; split|]|]|].
   - pose proof (c05_detached rf0 s e Hst H Hrf) as G.
     destruct e; try reflexivity; exact G.
-  - destruct e; try reflexivity. cbn [step io_kind_fail].
-    pose proof (c05_acked rf0 s wid off len fs Hst H Hrf) as G. cbv zeta in G.
-    match goal with |- (if ?c then _ else _) = true => destruct c eqn:E; [|reflexivity] end.
-    specialize (G eq_refl). destruct (do_write s wid off len fs) as [s' r]. cbn [fst snd] in *. subst r. reflexivity.
+  - cbv zeta. destruct e; try reflexivity; cbn [step io_kind_fail is_io io_in_range o_size observe with_res1 andb];
+      (match goal with |- (if ?c then _ else _) = true => destruct c eqn:E; [|reflexivity] end);
+      apply andb_prop in E; destruct E as [E G5]; apply andb_prop in E; destruct E as [E G4];
+      apply Nat.ltb_lt in G4; apply existsb_exists in G5; destruct G5 as [x [Hxg Hxr]]; apply mem_in in Hxr;
+      unfold is_ack; cbn [o_res observe].
+    + apply andb_prop in E. destruct E as [G1 E]. apply andb_prop in E. destruct E as [G2 G3].
+      apply Z.leb_le in G2. apply Z.leb_le in G3.
+      pose proof (c05_acked rf0 s wid off len fs x Hst H Hrf G1 G2 G3 G4 Hxg Hxr) as G.
+      destruct (do_write s wid off len fs) as [s' r]. cbn [fst snd] in *. subst r. reflexivity.
+    + rewrite andb_true_r in E.
+      pose proof (c05_acked_sync rf0 s fs KSync x Hst H Hrf E G4 Hxg Hxr) as G.
+      destruct (do_sync s fs KSync) as [s' r]. cbn [fst snd] in *. subst r. reflexivity.
+    + rewrite andb_true_r in E.
+      pose proof (c05_acked_sync rf0 s fs KUnmap x Hst H Hrf E G4 Hxg Hxr) as G.
+      destruct (do_sync s fs KUnmap) as [s' r]. cbn [fst snd] in *. subst r. reflexivity.
   - apply c05_enter.
   - destruct (is_io e) eqn:Eio; [|reflexivity].
     apply forallb_forall. intros a _.
     destruct (mem a (in_service (replicas s))) eqn:M; [reflexivity|].
     apply mem_false in M. rewrite <- (writers_in_service s H) in M.
     apply same_reps_eq. apply io_outside_world; assumption.
+  - pose proof (c05_reported_gone s e H) as G. unfold is_ack. cbn [o_res observe].
+    destruct e; try reflexivity;
+      (destruct (res_eqb (res_class (snd (fst (step s _)))) ROk) eqn:Eack; [|reflexivity]);
+      apply res_class_ok in Eack; apply negb_true_iff; apply mem_false; exact (G Eack).
 Qed.
 
 Theorem c05_oracle_model : forall es rf0 n w0, (1 <= rf0)%nat -> forallb ev_wf es = true ->
